@@ -411,8 +411,8 @@ def run_check(chk, own):
             raise MachineryError(f"vacuity: actions never taken: {dead}")
         chk.add(action_coverage={a: t for a, (d, t) in r.coverage.items() if a[0].isupper() and t})
         if not quick:
-            design_must_hold(chk, "c14-2keys", procs=3, keys=2, max_polls=2, max_req=4, max_kills=1, max_fails=1)
-            design_must_hold(chk, "c14-4procs", procs=4, keys=1, max_polls=2, max_req=5, max_kills=1, max_fails=1)
+            design_must_hold(chk, "c14-2keys", procs=3, keys=2, max_polls=2, max_req=3, max_kills=1, max_fails=1, timeout=5400)
+            design_must_hold(chk, "c14-4procs", procs=4, keys=1, max_polls=2, max_req=4, max_kills=1, max_fails=1, timeout=5400)
         liveness(chk)
         # spec -> code: TLC behaviours replayed on real processes
         jobs, rs = simulate_schedules(160 if quick else 1500, 45, seed + 1, max_kills=0, max_fails=0)
@@ -430,9 +430,9 @@ def run_check(chk, own):
         results += _run_and_judge(chk, allj, 3, 1, 2, own)
     else:
         design_must_hold(chk, "c15-faults", coverage=False, procs=3, keys=1, max_polls=2, max_req=4 if quick else 5,
-                         max_kills=1 if quick else 2, max_fails=1 if quick else 2)
+                         max_kills=1 if quick else 2, max_fails=1, timeout=5400)
         if not quick:
-            design_must_hold(chk, "c15-2keys", procs=3, keys=2, max_polls=2, max_req=4, max_kills=1, max_fails=2)
+            design_must_hold(chk, "c15-2keys", procs=3, keys=2, max_polls=2, max_req=3, max_kills=1, max_fails=1, timeout=5400)
         # fault enumeration by TLC: the shortest behaviour reaching each crash point / failure kind
         targets = [(f"kill@{x}", f'NeverKilledAt("{x}")') for x in CRASH_POINTS] + \
                   [(f"fail:{f}", f'NeverFails("{f}")') for f in ("codegen", "cc", "link")]
